@@ -256,6 +256,7 @@ package tokenizer
 //@   loop 1 decreases len(t.input) - t.pos.Index
 
 //@ func (*Tokenizer).Tokenize
+//@   ensures  @C09 implies(err == nil, isnew(result0))
 //@   ensures  @C20 cost() <= 2100*len(input) + 400*look() + 100000
 //@   loop 1 invariant @C20 look() == 0 && i <= len(input) && cost() <= 2*i + 20 && forall(k, 0, len(t.lineStarts), t.lineStarts[k] >= 0)
 //@   loop 1 invariant @C20 t.posCacheIndex == 0 && t.codeScanIndex == 0
@@ -269,6 +270,7 @@ package tokenizer
 //@   loop 1 invariant 0 <= i && t.input == input && t.pos.Index == 0
 
 //@ func (*Tokenizer).TokenizeContext
+//@   ensures  @C09 implies(err == nil, isnew(result0))
 //@   ensures  @C20 cost() <= 2100*len(input) + 400*look() + 100000
 //@   loop 1 invariant @C20 look() == 0 && i <= len(input) && cost() <= 2*i + 20 && forall(k, 0, len(t.lineStarts), t.lineStarts[k] >= 0)
 //@   loop 1 invariant @C20 t.posCacheIndex == 0 && t.codeScanIndex == 0
